@@ -1,7 +1,7 @@
 (** C05 — expressions evaluate with conventional, self-consistent semantics. *)
 From Coq Require Import List ZArith NArith Lia Bool Reals Floats.SpecFloat.
 From Flocq Require Import Core IEEE754.BinarySingleNaN.
-From AG Require Import Str F64 Value Json Expr Ops Pipeline F64_proofs F64_exact_proofs Value_proofs Expr_proofs Grammar Print Roundtrip_proofs.
+From AG Require Import Str F64 Value Json Expr Ops Pipeline F64_proofs F64_exact_proofs Value_proofs Expr_proofs Grammar Print Roundtrip_proofs Hex_proofs.
 Import ListNotations.
 Open Scope Z_scope.
 
@@ -144,6 +144,38 @@ Proof. vm_compute. reflexivity. Qed.
     `and` > `or`, left associativity and the non-chaining of comparisons require them, or fully
     parenthesised; with any whitespace runs, `and`/`&&`, `or`/`||`, `!=`/`<>`, either quote
     style — is read back as exactly that expression *)
+(** parseHex returns the documented result on EVERY hexadecimal spelling of every i64: either letter
+    case, any number of leading zeros (so also on "0", "0x0", "0000"), with or without the 0x
+    prefix, blanks around; a minus sign for negatives; too large or not hexadecimal is an error
+    (the row is dropped with a message), never a wrapped value. [to_hex] is an independent printer. *)
+Theorem C05_parse_hex_of_hex : forall (upper pre : bool) (k : nat) (n : Z) (ws1 ws2 : str),
+  0 <= n <= i64_max ->
+  forallb is_ws ws1 = true -> forallb is_ws ws2 = true ->
+  parse_hex (ws1 ++ (if pre then lit "0x" else []) ++ zeros k ++ to_hex upper n ++ ws2) = Ok (VInt n).
+Proof. exact parse_hex_of_hex. Qed.
+Print Assumptions C05_parse_hex_of_hex.
+Theorem C05_parse_hex_negative : forall (upper : bool) (k : nat) (n : Z),
+  0 <= n <= - i64_min ->
+  parse_hex (45%N :: zeros k ++ to_hex upper n) = Ok (VInt (- n)).
+Proof. exact parse_hex_negative. Qed.
+Theorem C05_parse_hex_out_of_range : forall (upper pre : bool) (n : Z),
+  i64_max < n < 2 ^ 256 ->
+  parse_hex ((if pre then lit "0x" else []) ++ to_hex upper n) = Err.
+Proof. exact parse_hex_out_of_range. Qed.
+Theorem C05_parse_hex_rejects : forall (s : str) (c : N) (r : str),
+  hex_val c = None -> c <> 45%N -> c <> 43%N -> is_ws c = false ->
+  (forall t, s ++ c :: r <> lit "0x" ++ t) ->
+  forallb (fun x => match hex_val x with Some _ => true | None => false end) s = true ->
+  parse_hex (s ++ c :: r ++ [49%N]) = Err.
+Proof. exact parse_hex_rejects. Qed.
+Example C05_parse_hex_examples :
+  parse_hex (lit "0x0") = Ok (VInt 0) /\ parse_hex (lit "0") = Ok (VInt 0) /\ parse_hex (lit "0000") = Ok (VInt 0) /\
+  parse_hex (lit "0x7b") = Ok (VInt 123) /\ parse_hex (lit " 0X1F ") = Err /\ parse_hex (lit "0x") = Err /\
+  parse_hex (lit "") = Err /\ parse_hex (lit "-8000000000000000") = Ok (VInt i64_min) /\
+  parse_hex (lit "8000000000000000") = Err /\ parse_hex (lit "0x0x1f") = Ok (VInt 31) /\
+  to_hex false 255 = lit "ff" /\ to_hex true 48879 = lit "BEEF" /\ to_hex false 0 = lit "0".
+Proof. exact parse_hex_examples. Qed.
+
 Theorem C05_precedence_roundtrip : forall (o : popts) (e : expr) (rest : str),
   popts_ok o = true -> wf_expr e = true -> stopb rest = true ->
   opt_expr (pp o 0 e ++ rest) = POk e rest.
